@@ -50,6 +50,14 @@ Example prepare_examples :
   /\ regex_prepare [92;123;120;125] = [92;123;120;92;125].
 Proof. repeat split; vm_compute; reflexivity. Qed.
 
+(* an expression without unknown escapes that the crate takes is handed to it as written *)
+Theorem effective_as_written : forall compiles e, cleanup e = e -> compiles e = true -> regex_effective compiles e = e.
+Proof. intros compiles e Hc Hk. unfold regex_effective. rewrite Hc, Hk. reflexivity. Qed.
+Theorem effective_plain : forall compiles e, forallb plain_char e = true -> regex_effective compiles e = e.
+Proof.
+  intros compiles e H. unfold regex_effective. rewrite (cleanup_plain e H). destruct (compiles e); [reflexivity|]. apply prepare_plain. exact H.
+Qed.
+
 (* ---------- what counts as a repetition quantifier: `{n}`, `{n,m}` and `{n,}` ---------- *)
 Lemma take_digits_app : forall d rest, forallb is_09 d = true ->
   (match rest with c :: _ => is_09 c = false | [] => True end) -> take_digits (d ++ rest) = (d, rest).
